@@ -93,6 +93,8 @@ def build(kind, D, rng, key_int):
         sp = tuple(int(v) for v in rng.integers(3, 6 if D == 2 else 4, size=D))
         layer = ml.GroupNorm(mlgen.signature(sig), D, groups) if kind == "groupnorm" else ml.LayerNorm(mlgen.signature(sig), D)
         layer = mlgen.perturb(layer, rng, 0.7)
+        if key_int % 3 == 0:
+            layer = mlgen.special_values(layer, rng)
         f = lambda x: layer(x)
         f.layer = layer
         return f, sig, sp, {"groups": groups}, None, True
@@ -104,7 +106,9 @@ def build(kind, D, rng, key_int):
         sp = tuple(int(v) for v in rng.integers(2, 5, size=D))
         layer = ml.VectorNeuronNonlinear(mlgen.signature(sig), D, act, key=key)
         layer = mlgen.perturb(layer, rng, 0.7)
-        return (lambda x: layer(x)), sig, sp, {"activation": act_name}, None, any(t != (0, 0) for t in types)
+        if key_int % 3 == 0:
+            layer = mlgen.special_values(layer, rng)  # zero / identical rows of the mixing weights, all-zero or all-one weights
+        return (lambda x: layer(x)), sig, sp, {"activation": act_name, "special_params": key_int % 3 == 0}, None, any(t != (0, 0) for t in types)
     patch = int([2, 2, 3][int(rng.integers(3))]) if D == 2 else 2
     pool = [(k, p) for k in range(3 if D == 2 else 2) for p in (0, 1)]
     nt = int(rng.integers(1, 3))
